@@ -102,6 +102,14 @@ pub fn gen_plan(rng: &mut Prng) -> RgPlan {
                     names[2] = "zz_sorts_last".to_string();
                 }
             }
+            if nv >= 4 && rng.chance(1, 10) {
+                // names that need CSV quoting because they contain the separator; judged on the raw
+                // output lines (the tool prints names verbatim)
+                names[0] = "a,b".to_string();
+                names[1] = "b,c".to_string();
+                names[2] = "a".to_string();
+                names[3] = "c".to_string();
+            }
             names
         };
         let ne = rng.range(0, 8);
@@ -284,7 +292,7 @@ fn args_of(plan: &RgPlan, dir: &PathBuf, force_dot: Option<bool>) -> (Vec<String
             let mut s = String::new();
             for (i, (x, y)) in edges.iter().enumerate() {
                 // every third row of some inputs uses CSV quoting; the logical fields are the same
-                if edges.len() % 2 == 1 && i % 3 == 0 {
+                if (edges.len() % 2 == 1 && i % 3 == 0) || x.contains(',') || y.contains(',') {
                     s.push_str(&format!("\"{x}\",\"{y}\"\n"));
                 } else {
                     s.push_str(&format!("{x},{y}\n"));
@@ -572,6 +580,48 @@ pub fn execute(plan: &RgPlan) -> RunOutcome {
                 if status != Some(0) {
                     vs.push(viol("G5", "refused", format!("--convert of a well-formed edge list exits {status:?}: {}", String::from_utf8_lossy(&first.sp.stderr).lines().next().unwrap_or(""))));
                 } else {
+                    let commas = edges.iter().any(|(a, b)| a.contains(',') || b.contains(','));
+                    if commas {
+                        bump(&mut stats, "probe.convert.names_with_commas");
+                    }
+                    if commas && colors.is_none() {
+                        // names containing the separator: compare the raw lines (names are printed verbatim)
+                        let want: Vec<String> = if *dot {
+                            let mut v = vec![if *undirected { "graph G {".to_string() } else { "digraph G {".to_string() }];
+                            v.extend(expect.iter().map(|(a, b)| format!("    {a} {} {b}", if *undirected { "--" } else { "->" })));
+                            v.push("}".to_string());
+                            v
+                        } else {
+                            expect.iter().map(|(a, b)| format!("{a},{b}")).collect()
+                        };
+                        let got: Vec<String> = text.lines().map(|l| l.to_string()).collect();
+                        if got != want {
+                            vs.push(viol("G5", "edge-list", format!("--convert output lines {:?} differ from the input list (reversed duplicates merged under -u) {:?}", got, want)));
+                        }
+                    } else if commas {
+                        // the colour graph's vertex names cannot be split reliably: judge the number of edges only
+                        let mut verts: Vec<String> = Vec::new();
+                        for (a, b) in edges {
+                            for x in [a, b] {
+                                if !verts.contains(x) {
+                                    verts.push(x.clone());
+                                }
+                            }
+                        }
+                        let k = colors.expect("colors");
+                        let adjacent = |a: &String, b: &String| edges.contains(&(a.clone(), b.clone())) || edges.contains(&(b.clone(), a.clone()));
+                        let mut want_edges = 0usize;
+                        for i in 0..verts.len() {
+                            for j in (i + 1)..verts.len() {
+                                // copies of two distinct vertices are joined unless same colour and adjacent
+                                want_edges += k * k - if adjacent(&verts[i], &verts[j]) { k } else { 0 };
+                            }
+                        }
+                        let got_edges = text.lines().filter(|l| !l.starts_with("graph") && !l.starts_with("digraph") && *l != "}").count();
+                        if !edges.iter().any(|(a, b)| a == b) && got_edges != want_edges {
+                            vs.push(viol("G6", "colour-edge-count", format!("the colour graph of {:?} with {k} colours has {got_edges} edges, expected {want_edges}", edges)));
+                        }
+                    } else {
                     // dot output of an augmented graph always uses the flag's arrow type
                     match parse_edges(&text, *dot, *undirected) {
                         Err(e) => vs.push(viol("G5", "format", e)),
@@ -607,6 +657,7 @@ pub fn execute(plan: &RgPlan) -> RunOutcome {
                                 }
                             }
                         },
+                    }
                     }
                 }
             }
